@@ -113,6 +113,8 @@ func runC14(c *caseWriter) (string, bool, map[string]int) {
 	run(truCls, "/a/", "b/c")
 	run(truCls, "/a/", "..")
 	run(truCls, "https://a.b/", "x.js?y#z")
+	run(urlCls, "/", "/evil.com/x") // normalised only: the data becomes the authority (observation, class +normalised_authority_not_fixed)
+	run(urlCls, "http:", "//evil.com/x")
 
 	hostileData := []string{"..", "%2e%2e", "%2E.", ".", "%2e", "/", "\\", "?", "#", "&", "=", "javascript:alert(1)", " ", "\t", "\n", "\"", "'", "<", ">", "`", "(", ")",
 		"é", "\xff", "\x00", "\x7f", "%41", "%4", "%zz", "%", "%%41", "a%4", "%412", "", "a", "//evil.com/x", "/../../x", "a&b=c#d", ":", "@evil.com", "[", "]", "{{", "&amp;", "&quest;", "lt;", "#x3c;",
@@ -180,7 +182,10 @@ func runC14(c *caseWriter) (string, bool, map[string]int) {
 						base := s + h + pa + qu + fr
 						ts := []string{"", tails[i%len(tails)], tails[(i*7+3)%len(tails)]}
 						if thorough {
-							ts = tails
+							ts = []string{""}
+							for k := 0; k < 12; k++ {
+								ts = append(ts, tails[(i*13+k*5+1)%len(tails)])
+							}
 						}
 						for j, t := range ts {
 							p := base + t
